@@ -244,6 +244,7 @@ def gen_reduce_case(
     if func in VAR_FAMILY and tape.chance("gen.ddof", 0.3):
         kwargs["finalize_kwargs"] = {"ddof": 1}
     nblocks = len(chunks[-1])
+    eg_container = tape.choice("gen.egcont", ["ndarray", "ndarray", "list", "index"]) if (expected_mode != "none" and kind != "str") else None
     by_chunks = None
     if by_dask and tape.chance("gen.bychunks", 0.3):
         by_chunks = [gen_chunks(tape, n, "gen.bychunks.c", max_blocks=max_blocks)]  # labels chunked differently from the values
@@ -253,6 +254,7 @@ def gen_reduce_case(
         "by": [enc_array(labels)],
         "chunks": chunks,
         "by_chunks": by_chunks,
+        "eg_container": eg_container,
         "by_dask": bool(by_dask),
         "kwargs": enc_value(kwargs),
         "knobs": swarm_knobs(tape, nblocks, allow_faults=allow_faults),
@@ -292,6 +294,15 @@ def decode_case(case):
         kwargs["dtype"] = kwargs["dtype"][2:]
     if "finalize_kwargs" in kwargs and "q" in kwargs["finalize_kwargs"]:
         pass
+    cont = case.get("eg_container")
+    if cont and len(bys) == 1 and isinstance(kwargs.get("expected_groups"), np.ndarray):
+        # the caller may hand over the requested labels as a list, an ndarray or a pandas Index
+        if cont == "list":
+            kwargs["expected_groups"] = kwargs["expected_groups"].tolist()
+        elif cont == "index":
+            import pandas as pd
+
+            kwargs["expected_groups"] = pd.Index(kwargs["expected_groups"])
     if len(bys) > 1:
         if isinstance(kwargs.get("expected_groups"), list):
             kwargs["expected_groups"] = tuple(kwargs["expected_groups"])
@@ -659,3 +670,49 @@ def gen_multi_by_case(tape: Tape, *, funcs=("sum", "nansum", "mean", "nanmean", 
         "meta": {"pattern": "multi-by" + ("-binned" if binned else ""), "label_kind": "multi", "ngroups": int(g1 * g2), "nby": 2},
     }
     return case
+
+
+def gen_binned_case(tape: Tape, *, funcs=("sum", "nansum", "mean", "count", "max", "nanmin", "var", "nanfirst", "argmax"),
+                    allow_faults: bool = True, max_blocks: int = 8) -> dict:
+    """One grouper given as bin edges (pandas.cut semantics): values exactly on edges, outside all bins, NaN."""
+    func = tape.choice("gen.func", funcs)
+    n = tape.randint("gen.n", 3, 24)
+    nb = tape.randint("gen.nbins", 1, 4)
+    edges = [float(e) for e in range(nb + 1)]
+    pool = edges + [e + 0.5 for e in edges[:-1]] + [-1.0, nb + 1.5, math.nan]
+    lab = np.array([tape.choice("gen.binlab", pool) for _ in range(n)], dtype="f8")
+    if np.isnan(lab).all():
+        lab[0] = 0.5
+    dtype = tape.choice("gen.dtype", ["f8", "f8", "i8", "f4"])
+    dt = np.dtype(dtype)
+    nan_p = tape.choice("gen.nanp", [0.0, 0.2]) if (dt.kind == "f" and func != "argmax") else 0.0
+    lead = [tape.randint("gen.lead", 1, 2)] if tape.chance("gen.ndim2", 0.3) else []
+    shape = lead + [n]
+    vals = gen_values(tape, int(np.prod(shape)), dtype=dtype, nan_p=nan_p).reshape(shape)
+    chunks = [gen_chunks(tape, s, "gen.chunks.lead", max_blocks=2) for s in lead] + [gen_chunks(tape, n, max_blocks=max_blocks)]
+    kwargs = {"func": func, "expected_groups": np.array(edges), "isbin": True}
+    if func == "argmax":
+        kwargs["fill_value"] = -1
+    elif dt.kind in "iu" and func in ("sum", "nansum", "count", "max", "nanmin", "nanfirst"):
+        kwargs["fill_value"] = tape.choice("gen.fill", [0, -7, math.nan])
+    else:
+        kwargs["fill_value"] = tape.choice("gen.fill", [math.nan, 0.0])
+    method = tape.choice("gen.method", [None, None, "map-reduce", "cohorts"])
+    by_dask = tape.chance("gen.bydask", 0.35)
+    if by_dask and method == "cohorts":
+        method = "map-reduce"
+    if method is not None:
+        kwargs["method"] = method
+    reindex = tape.choice("gen.reindex", [None, None, True, False])
+    if reindex is not None:
+        kwargs["reindex"] = reindex
+    return {
+        "kind": "reduce",
+        "array": enc_array(vals),
+        "by": [enc_array(lab)],
+        "chunks": chunks,
+        "by_dask": bool(by_dask),
+        "kwargs": enc_value(kwargs),
+        "knobs": swarm_knobs(tape, len(chunks[-1]), allow_faults=allow_faults),
+        "meta": {"pattern": "binned", "label_kind": "binned", "ngroups": nb},
+    }
